@@ -120,6 +120,16 @@ func run(c Case) (v vkit.Verdict) {
 	if err != nil {
 		return v.Fail("Encode error: %v", err)
 	}
+	// the text belongs to the caller: later calls of the codec (a batch of encodings kept in a slice) must not change it
+	snap := append([]byte(nil), b...)
+	for _, o := range []geom.Geom{geom.LineString{{X: 7, Y: 7}, {X: 8, Y: 9.5}, {X: 1000, Y: -2}}, geom.Point{X: 7, Y: 7}} {
+		if ob, err := geojson.Encode(o); err == nil {
+			geojson.Decode(ob)
+		}
+	}
+	if !bytes.Equal(b, snap) {
+		return v.Fail("the text returned by Encode(g) was changed by later Encode calls: was %s, is %s", snap, b)
+	}
 	// independent look at the text
 	dec := json.NewDecoder(bytes.NewReader(b))
 	dec.UseNumber()
@@ -146,6 +156,7 @@ func run(c Case) (v vkit.Verdict) {
 	if err != nil {
 		return v.Fail("Decode(Encode(g)) error: %v on %s", err, b)
 	}
+	geojson.Decode([]byte(`{"type":"LineString","coordinates":[[7,7],[8,9.5],[1000,-2]]}`)) // a later Decode must not reach into back
 	bj, ok := vkit.FromGeom(back)
 	if !ok || !bj.Equal(c.G, true) {
 		return v.Fail("Decode(Encode(g)) != g (compared bit for bit, so -0 must stay -0): %+v from %s", back, b)
@@ -215,7 +226,7 @@ func TestProp(t *testing.T) {
 		ID: "C06",
 		Rule: "rapid: geometries of the six supported types, 1-6 members with >=1 vertex in the first member (later members possibly empty), finite float64 coordinates from bit " +
 			"patterns (-0, subnormals, 17-digit values, 1e+-300) and plain decimals; negative space: GeometryCollection, *Bounds, one coordinate overwritten with NaN/+-Inf. " +
-			"Oracle: Decode(Encode(g)) same type/nesting and bit-identical coordinates (the property lists negative zero among the inputs and asks for exactly the same coordinates); text parsed independently with encoding/json+UseNumber: object with exactly type and " +
+			"Oracle: the text returned by Encode is unchanged by two later Encode/Decode calls on other geometries (results kept across calls, as in a batch), and the decoded value likewise; Decode(Encode(g)) same type/nesting and bit-identical coordinates (the property lists negative zero among the inputs and asks for exactly the same coordinates); text parsed independently with encoding/json+UseNumber: object with exactly type and " +
 			"coordinates, RFC 7946 type name, nesting depth 1/2/2/3/3/4 with the member lengths of g, every position exactly two numbers that ParseFloat to the bits of (x,y) in order. " +
 			"Non-trivial = >=2 members/positions or a coordinate needing >=16 significant digits, or a non-finite negative case. Distinct by case hash.",
 		Assumptions: []string{"nil and empty member slices are identified"},
